@@ -40,6 +40,9 @@ static Path64 mk(int len, int64_t id) {
   if (len >= 2) p.push_back(Point64(id + 40, (int64_t)0));
   if (len >= 3) p.push_back(Point64(id + 40, (int64_t)30));
   if (len >= 4) p.push_back(Point64(id, (int64_t)30));
+#ifdef REVERSED
+  if (len >= 3) std::reverse(p.begin() + 1, p.end());     // same first vertex (the id), opposite orientation: the "reversed" convention
+#endif
   return p;
 }
 // inflating by up to 1e6, shrinking by at most 14 (the test paths are 40x30: a larger shrink may legitimately be skipped as vanishing)
@@ -88,7 +91,11 @@ extern "C" void harness_dispatch_rules() {
   } else {
     VA(NLOG == 1);
     // mk() paths are positively oriented (area > 0), so a Polygon group is not reversed: group delta == delta
+#ifdef REVERSED
+    if (et == EndType::Polygon) { VA(LAST.kind == 1); VA(same_double(LAST.gd, LEN1 >= 3 ? -delta : delta)); }   // negatively oriented group: delta negated
+#else
     if (et == EndType::Polygon) { VA(LAST.kind == 1); VA(same_double(LAST.gd, delta)); }
+#endif
     else {
       VA(same_double(LAST.gd, ad));               // identical for +delta and -delta
       if (et == EndType::Joined && LEN1 == 2) { VA(LAST.kind == 3); VA(LAST.et == (int)(jt == JoinType::Round ? EndType::Round : EndType::Square)); }
